@@ -477,7 +477,7 @@ def run_job(job):
         saved = secrets.randbelow
         secrets.randbelow = rb
         try:
-            ex = concur.explore_calls(acc, calls, ("bits/ecmath.py",), 1 if job["tier"] == "quick" else 2, judge, "concur", case, warmup=warm)
+            ex = concur.explore_calls(acc, calls, ("bits/ecmath.py",), 1 if job["tier"] == "quick" else 2, judge, "concur", case, warmup=warm, max_exec=6000 if job["tier"] == "quick" else 100_000)
         finally:
             secrets.randbelow = saved
         acc.ob("concurrent_first_calls", ex.executions)
